@@ -11,6 +11,8 @@ import (
 	"sort"
 	"strconv"
 	"strings"
+	"sync"
+	"sync/atomic"
 	"text/template"
 	"text/template/parse"
 	"time"
@@ -497,6 +499,53 @@ func (d tData) floats() []uint32 {
 	return out
 }
 
+// tmplParallel renders 8 variants of the data (group and topic names suffixed per lane) alone, then all at once from 8
+// goroutines, 40 times each, and reports whether every concurrent rendering equals the one made alone.
+func tmplParallel(t *template.Template, d tData, extras map[string]string, start time.Time) string {
+	const lanes, rounds = 8, 40
+	variants := make([]tData, lanes)
+	refs := make([]string, lanes)
+	for j := 0; j < lanes; j++ {
+		v := d
+		v.group = d.group + "-" + strconv.Itoa(j)
+		v.parts = append([]tPart{}, d.parts...)
+		for k := range v.parts {
+			v.parts[k].topic += "-" + strconv.Itoa(j)
+		}
+		variants[j] = v
+		out, err := verifhook.ExecuteTemplate(t, extras, v.status(), v.id, start)
+		if err != nil {
+			return "err"
+		}
+		refs[j] = out.String()
+	}
+	var wg sync.WaitGroup
+	var bad int32
+	for j := 0; j < lanes; j++ {
+		wg.Add(1)
+		go func(j int) {
+			defer wg.Done()
+			defer func() {
+				if recover() != nil {
+					atomic.AddInt32(&bad, 1)
+				}
+			}()
+			for k := 0; k < rounds; k++ {
+				out, err := verifhook.ExecuteTemplate(t, extras, variants[j].status(), variants[j].id, start)
+				if err != nil || out.String() != refs[j] {
+					atomic.AddInt32(&bad, 1)
+					return
+				}
+			}
+		}(j)
+	}
+	wg.Wait()
+	if bad > 0 {
+		return "differs"
+	}
+	return "same"
+}
+
 // ---------------------------------------------------------------------------------------------
 // run
 
@@ -578,7 +627,13 @@ func runTmpl(r *runner) {
 		if json.Valid(out.Bytes()) {
 			jv = "valid"
 		}
-		r.reply("r=ok out=%s json=%s gen=%s", hx(out.String()), jv, gen)
+		par := ""
+		if m["par"] == "1" {
+			// rendering is a function of the data: renderings running at the same time (the notifier renders each
+			// evaluation in its own goroutine) must each equal the rendering of their own data done alone
+			par = " par=" + tmplParallel(t, d, extras, start)
+		}
+		r.reply("r=ok out=%s json=%s gen=%s%s", hx(out.String()), jv, gen, par)
 	}
 }
 
@@ -796,9 +851,13 @@ func genTmpl(g *gen) {
 	for i := 0; i < n; i++ {
 		g.newCase()
 		// every shipped template on a status inside the invariant with JSON-safe names
-		for _, name := range shippedTemplates {
+		for k, name := range shippedTemplates {
 			d := genData(g, true, true)
-			g.emit("T x tmpl=@%s safe=1 inv=1 %s", name, d.encFields())
+			par := ""
+			if (i+k)%8 == 0 {
+				par = " par=1" // also render variants of this data concurrently
+			}
+			g.emit("T x tmpl=@%s safe=1 inv=1%s %s", name, par, d.encFields())
 		}
 		// shipped templates on arbitrary data (names that need escaping, statuses outside the invariant)
 		name := shippedTemplates[g.intn(len(shippedTemplates))]
